@@ -255,6 +255,9 @@ func ruleStream(c *Ctx) {
 			if ef.Kind == "store" && strings.HasSuffix(ef.Target, ".copyStrings") && ef.Val.String() == "true" && !parsed {
 				copySet = true
 			}
+			if ef.Kind == "call" && strings.HasSuffix(ef.Target, "sync.Pool).Put") && len(ef.Args) == 1 && ef.Args[0].String() == "L:tmp" {
+				report("worker-buffer", "a worker returns its chunk buffer to the pool although the delivered ParsedJson still refers to it (Message) and recycling through the reuse channel pools it again: the reader then overwrites a chunk that is being parsed or read", "a multi-chunk stream whose results are recycled through the reuse channel", worker)
+			}
 			if ef.Kind == "call" && ef.Target == "internalParsedJson.parseMessage" {
 				parsed = true
 				if len(ef.Args) != 2 || ef.Args[1].String() != "true" {
